@@ -450,15 +450,13 @@ impl PagedWriter {
 
 //@fn src/paged_writer.rs PagedWriter align serves=C11,C16,C02,C15,C06 ret=r
 //@rw &zeros\[mod_offset\.\.\] ==> vstd::slice::slice_subrange(&zeros, mod_offset, 4)
-//@tail
+//@body_start
+        // stated at entry and free of local names, so that it covers every exit (also an early return when nothing is to be written)
         proof {
-            reveal(app_seq); reveal(stream_of);
-            if mod_offset != 0 {
-                assert(zeros@.subrange(mod_offset as int, 4) =~= Seq::new((4 - mod_offset) as nat, |i: int| 0u8));
-            } else {
-                lemma_appended_refl(*self);
-                assert(Seq::new(0nat, |i: int| 0u8) =~= Seq::<u8>::empty());
-            }
+            lemma_appended_refl(*old(self));
+            assert(Seq::new(0nat, |i: int| 0u8) =~= Seq::<u8>::empty());
+            assert forall|a: [u8; 4], lo: int| (forall|i: int| 0 <= i < 4 ==> a@[i] == 0u8) && 0 <= lo <= 4 implies
+                #[trigger] a@.subrange(lo, 4) =~= Seq::new((4 - lo) as nat, |i: int| 0u8) by {}
         }
 //@sig
         requires old(self).wf(),
